@@ -3617,15 +3617,16 @@ func restartSubtree(ctx context.Context, node *restartNode, parent *PID, tree *t
 	// Wait until no worker holds the actor before re-initializing. The
 	// MPSC mailbox is single-consumer; restarting while a worker is mid
 	// Dequeue would be a data race.
-	for pid.schedState.Load() == dispatchProcessing {
+	//
+	// The scheduling state returns to Idle in the same atomic step, while the
+	// actor is still stopped. Checking first and storing Idle afterwards would
+	// let a worker that pulled a still-Scheduled actor off the ready queue take
+	// it in between, and the store would then hand the actor to a second worker.
+	// Doing it after init() would race the same way with a worker that already
+	// took the actor for a message accepted once it is running again.
+	for !pid.schedState.resetUnlessProcessing() {
 		runtime.Gosched()
 	}
-
-	// Return the scheduling state to Idle while the actor is still stopped.
-	// Doing it after init() would race with a worker that already took the
-	// actor for a message accepted once it is running again: the reset would
-	// let a second worker run the same actor concurrently.
-	pid.schedState.reset()
 
 	pid.resetBehavior()
 	if err := pid.init(ctx); err != nil {
